@@ -106,6 +106,38 @@ def densified_in_station_order(ck, rid, f, fl, value, node, mapping, station_src
     return ok_all
 
 
+def _exists_unknown_key(e, sched):
+    """the (expanded) condition is true exactly when some key of the mapping is not a station of the network:
+    truthiness / len(..) > 0 of `[k for k in sched if k not in station_ids]`, `any(k not in station_ids for k in sched)`,
+    truthiness of `set(sched) - set(station_ids)`"""
+    STATIONS = ("self.network.station_ids", "self.network._EVSEs", "self.network._EVSEs.keys()")
+
+    def keys_of_sched(it):
+        c = canon(it)
+        return c in (sched, f"{sched}.keys()", f"list({sched})", f"list({sched}.keys())", f"set({sched})")
+
+    def unknown_test(t, var):
+        c = cmp_norm(t)
+        return bool(c) and c[1] == "not in" and canon(c[0]) == var and (canon(c[2]) in STATIONS or canon(c[2]) in tuple(f"set({x})" for x in STATIONS))
+    c = cmp_norm(e)
+    if c and c[1] == "<" and canon(c[0]) == "0" and isinstance(c[2], ast.Call) and call_name(c[2]) == "len" and c[2].args:
+        e = c[2].args[0]
+    if c and c[1] == "!=" and {canon(c[0]), "0"} == {canon(c[0]), canon(c[2])} and False:
+        pass
+    while isinstance(e, ast.Call) and call_name(e) in ("list", "tuple", "bool", "sorted", "set") and len(e.args) == 1:
+        e = e.args[0]
+    if isinstance(e, (ast.ListComp, ast.GeneratorExp, ast.SetComp)) and len(e.generators) == 1 and isinstance(e.generators[0].target, ast.Name):
+        g = e.generators[0]
+        return keys_of_sched(g.iter) and len(g.ifs) == 1 and unknown_test(g.ifs[0], g.target.id)
+    if isinstance(e, ast.Call) and call_name(e) == "any" and len(e.args) == 1 and isinstance(e.args[0], (ast.GeneratorExp, ast.ListComp)):
+        g0 = e.args[0]
+        if len(g0.generators) == 1 and isinstance(g0.generators[0].target, ast.Name) and not g0.generators[0].ifs:
+            return keys_of_sched(g0.generators[0].iter) and unknown_test(g0.elt, g0.generators[0].target.id)
+    if isinstance(e, ast.BinOp) and isinstance(e.op, ast.Sub):
+        return canon(e.left) in (f"set({sched})", f"set({sched}.keys())", f"{sched}.keys()") and canon(e.right) in tuple(f"set({x})" for x in STATIONS)
+    return False
+
+
 def rule_update_schedules(ck):
     repo = ck.repo
     us = repo.fn("Simulator._update_schedules")
@@ -134,6 +166,7 @@ def rule_update_schedules(ck):
             fs = [cmp_norm(a, t) for a, t in facts_at(fl, r)]
             ok = any(c and c[1] == "not in" and canon(fl.expand(c[2], r)) == "self.network.station_ids"
                      and canon(fl.expand(c[0], r)) in (f"__elem__({sched})", f"__key__({sched})") for c in fs)
+            ok = ok or any(t and _exists_unknown_key(fl.expand(a, r), sched) for a, t in facts_at(fl, r))
             ck.require(ok, "C04.R1", us, r.stmt, ok="every key of the mapping is checked against network.station_ids",
                        bad="the unknown-station rejection must test each key of the mapping against network.station_ids", sink="reject-unknown-test")
         if _exc(r) == "InvalidScheduleError":
